@@ -17,9 +17,9 @@ Definition wire_sockaddr (b18 : list N) : sockaddr :=
 (* a record on the wire: 4-byte big-endian length (excluding itself) and that many bytes *)
 Definition frame (body : list N) : list N := to_be 4 (lenN body) ++ body.
 
-(* largest record the endpoint accepts: the datagram with its (length-less) header and name must
-   fit a UDP payload (65508 = 2^16 - 20 - 8), see http_udp_codec.rs MAX_UDP_IN_PAYLOAD_SIZE *)
-Definition max_record (app_len : N) : N := 65508 - 37 - app_len.
+(* largest record that is a datagram: a UDP payload has at most 65507 bytes (RFC 768 over IPv4: 65535 - 20 - 8); the record also
+   carries its (length-less) 37-byte header and the application name *)
+Definition max_record (app_len : N) : N := 65507 + 37 + app_len.
 
 (* the datagram a record body denotes, or None when the endpoint must skip the record *)
 Definition classify (body : list N) : option dgram :=
